@@ -32,6 +32,7 @@ ASSUMPTIONS = [
 ]
 
 DTYPES = ["int16", "int32", "int64", "float16", "float32", "float64", "float128"]
+TARGETS = DTYPES + ["int8"]
 
 
 def Fx(x) -> Fraction:
@@ -76,7 +77,7 @@ class Model:
 def consistent(h, what):
     require(h.dtype == np.asarray(h.frequencies).dtype == np.asarray(h.errors2).dtype, "dtype_inconsistent",
             f"{what}: dtype {h.dtype} frequencies {np.asarray(h.frequencies).dtype} errors2 {np.asarray(h.errors2).dtype}")
-    require(h.dtype.name in DTYPES, "unsupported_dtype", f"{what}: {h.dtype}")
+    require(h.dtype.name in TARGETS, "unsupported_dtype", f"{what}: {h.dtype}")
 
 
 def conversion_allowed(h, target: np.dtype) -> bool:
@@ -347,7 +348,7 @@ def one_op(draw):
     if name == "normalize":
         return [name, draw(st.booleans())]
     if name == "set_dtype":
-        return [name, draw(st.sampled_from(DTYPES)), draw(st.sampled_from(["method", "property", "string"]))]
+        return [name, draw(st.sampled_from(TARGETS)), draw(st.sampled_from(["method", "property", "string"]))]
     return [name]
 
 
@@ -373,6 +374,14 @@ def histories(draw, tier="quick"):
         if spec["err2"] is not None:
             spec["err2"] = None
     ops = draw(st.lists(one_op(), min_size=1, max_size=10 if tier == "thorough" else 6))
+    if dtype in ("int32", "int64", "float32", "float64", "float128") and draw(st.integers(0, 3)) == 0 and max(abs(x) for x in hgen.flat(spec["freq"])) <= 1000:
+        # squared errors beyond the range of the narrow types while the contents fit
+        k = draw(st.sampled_from([500, 40000]))
+
+        def scale(x):
+            return [scale(y) for y in x] if isinstance(x, list) else x * k
+
+        spec["err2"] = scale(spec["err2"] if spec["err2"] is not None else spec["freq"])
     return {"spec": spec, "ops": ops}
 
 
